@@ -154,6 +154,9 @@ type FuncVC struct {
 	inGo bool
 	lockOps int
 	strEqDone map[string]bool
+	frameT   map[string]modTarget
+	frameAll bool
+	allocBoundTerm string
 }
 
 type mapIter struct {
